@@ -15,6 +15,7 @@ Record crun := CR {
   r_occ : N;                (* occurrence of the crash point *)
   r_oks : list bool;        (* result (nil error?) of every call that returned before the kill *)
   r_hits : list (N * N);    (* clean exit only: verifhook.Hits() *)
+  r_noqs : bool;            (* the lifetime ran WITHOUT a QueryStore attached: no index is maintained *)
   r_obs : obs               (* database after the lifetime, read by the parent *)
 }.
 Record ccase := CC {
@@ -23,7 +24,7 @@ Record ccase := CC {
   c_runs : list crun;
   c_rb_ok : bool;           (* RebuildIndexes returned nil *)
   c_rb_obs : obs;           (* database after RebuildIndexes *)
-  c_queries : list (bytes * list id)   (* unrestricted query per index *)
+  c_queries : list (bytes * bytes * list id)   (* (index, key prefix, ids returned) after RebuildIndexes *)
 }.
 
 (* the harness's indexes: ia = field A (never nil), ib = field B (nil when empty) *)
@@ -31,6 +32,21 @@ Definition kf_a (v : value) : option bytes := Some (fst v).
 Definition kf_b (v : value) : option bytes := if is_nil (snd v) then None else Some (snd v).
 Definition name_a : bytes := [105; 97].
 Definition name_b : bytes := [105; 98].
+(* the store is typed (struct with omitempty members) or untyped (map records with differing
+   member sets); in both an absent member reads as "" in the Key callbacks, so one value model
+   (A, B) with "" = absent covers them *)
+Definition run_cfg (g : cfg) (r : crun) : cfg := if r_noqs r then Cfg (prefix g) [] else g.
+Fixpoint has_prefix (p s : bytes) : bool :=
+  match p, s with
+  | [], _ => true
+  | x :: p', y :: s' => (x =? y) && has_prefix p' s'
+  | _ :: _, [] => false
+  end.
+(* ids listed by a query on index [n] with key prefix [kp] *)
+Definition query_ids_pref (n kp : bytes) (c : content) : list id :=
+  flat_map (fun kv => match fst kv with
+                      | KIdx n' ik i => if beq n n' && has_prefix kp ik then [i] else []
+                      | _ => [] end) c.
 Definition case_cfg (c : ccase) : cfg :=
   Cfg (c_prefix c) (if c_nidx c =? 1 then [(name_a, kf_a)] else [(name_a, kf_a); (name_b, kf_b)]).
 
@@ -105,7 +121,8 @@ Definition match_variant (g : cfg) (c0 : content) (r : crun) (ops : list op) : o
   end.
 Fixpoint first_some {A B} (f : A -> option B) (l : list A) : option B :=
   match l with [] => None | x :: r => match f x with Some y => Some y | None => first_some f r end end.
-Definition match_run (g : cfg) (c0 : content) (r : crun) : option content :=
+Definition match_run (g0 : cfg) (c0 : content) (r : crun) : option content :=
+  let g := run_cfg g0 r in
   first_some (fun k => match_variant g c0 r (variant k (r_ops r))) (seq 0 (nvariants (r_ops r))).
 
 (* hits of a clean lifetime *)
@@ -113,11 +130,13 @@ Definition ev_hits (pt : N) (tr : list ev) : N :=
   N.of_nat (length (filter (fun e => match e with EHit q => q =? pt | _ => false end) tr)).
 Fixpoint nlookup (k : N) (l : list (N * N)) : N :=
   match l with [] => 0 | (k', v) :: r => if k =? k' then v else nlookup k r end.
-Definition hits_ok (g : cfg) (c0 : content) (r : crun) : bool :=
+Definition hits_ok (g0 : cfg) (c0 : content) (r : crun) : bool :=
+  let g := run_cfg g0 r in
   if negb (r_pt r =? 0) then true
   else let pr := compile c0 (r_ops r) in
        let tr := trace (exec g (repeat AClient (length pr) ++ repeat AIndex (length pr)) (MS pr [] [])) in
-       forallb (fun pt => ev_hits pt tr =? nlookup pt (r_hits r)) [1;2;3;4;5;6;7;8;9;10].
+       forallb (fun pt => ev_hits pt tr =? nlookup pt (r_hits r))
+               (if r_noqs r then [1;2;3;4;5;6;7;8] else [1;2;3;4;5;6;7;8;9;10]).
 
 (* field codes: 1 content after a lifetime is not allowed by the model  2 RebuildIndexes outcome
    3 content after RebuildIndexes  4 query result  5 crash-point hit counts of a clean lifetime *)
@@ -140,7 +159,7 @@ Definition check_case (cs : ccase) : list N :=
            | RbOk c' =>
                (if c_rb_ok cs then [] else [2]) ++
                (if obs_eq (enc_content g c') (c_rb_obs cs) then [] else [3]) ++
-               (if forallb (fun q => ids_seteq (query_ids (fst q) c') (snd q)) (c_queries cs) then [] else [4])
+               (if forallb (fun q => ids_seteq (query_ids_pref (fst (fst q)) (snd (fst q)) c') (snd q)) (c_queries cs) then [] else [4])
            | RbErr c' =>
                (if c_rb_ok cs then [2] else []) ++
                (if obs_eq (enc_content g c') (c_rb_obs cs) then [] else [3])
@@ -214,8 +233,8 @@ Definition viol_case (cs : ccase) : list N :=
   (if c_rb_ok cs && negb (forallb (fun q =>
         ids_seteq (snd q)
           (flat_map (fun i => match oval g o i with
-                              | Some v => match first_some (fun ix => if beq (fst ix) (fst q) then Some (snd ix v) else None) (idxs g) with
-                                          | Some (Some _) => [i] | _ => [] end
+                              | Some v => match first_some (fun ix => if beq (fst ix) (fst (fst q)) then Some (snd ix v) else None) (idxs g) with
+                                          | Some (Some ik) => if has_prefix (snd (fst q)) ik then [i] else [] | _ => [] end
                               | None => [] end) u)) (c_queries cs)) then [7] else []) ++
   (if st_eq_on u (ostate g o) (ostate g (last_obs (c_runs cs))) then [] else [8]).
 
